@@ -203,9 +203,143 @@ func pass(c *corpus, infos []*linter.CheckerInfo, orderFor func(f *fw.File) []in
 	return res
 }
 
+// paramsStream: the registered CheckerInfo structs and parameter cells are inputs too. For every checker and every
+// parameter, values that take non-default code paths are tried (each bool flipped, ints at the extremes, strings over
+// the values of their domain); the whole registry, as handed out by linter.GetCheckersInfo(), is rendered before and
+// after the constructor call and after Check: it must not move.
+func paramsStream(meta *common.Meta, c *corpus, infos []*linter.CheckerInfo) {
+	stringDomain := func(checker, name string, def string) []string {
+		vals := []string{"", "all", "verif-unknown-value"}
+		switch name {
+		case "failOn":
+			vals = append(vals, "dsl", "import", "dsl,import")
+		case "rules":
+			vals = append(vals, fmt.Sprint(fw.InfoByName(infos)["ruleguard"].Params["rules"].Value), "/nonexistent/rules.go")
+		case "enable", "disable":
+			vals = append(vals, "<all>", "#diagnostic", "verifTyped")
+		}
+		var out []string
+		for _, v := range vals {
+			if v != def {
+				out = append(out, v)
+			}
+		}
+		return out
+	}
+	byPkg := map[string][]*fw.File{}
+	for _, p := range c.pkgs {
+		byPkg[p.Name] = p.Files
+	}
+	variants, ctorErrs := 0, 0
+	for _, info := range infos {
+		var names []string
+		for k := range info.Params {
+			names = append(names, k)
+		}
+		sort.Strings(names)
+		files := byPkg[info.Name]
+		if len(files) == 0 {
+			files = c.files[:2]
+		}
+		for _, pn := range names {
+			cell := info.Params[pn]
+			def := cell.Value
+			var vals []interface{}
+			switch d := def.(type) {
+			case bool:
+				vals = []interface{}{!d}
+			case int:
+				vals = []interface{}{0, 1, d*2 + 1}
+			case string:
+				for _, v := range stringDomain(info.Name, pn, d) {
+					vals = append(vals, v)
+				}
+			}
+			for _, val := range vals {
+				cell.Value = val
+				variants++
+				reg0 := fw.SnapRegistry()
+				ctx := linter.NewContext(c.fset, fw.Sizes)
+				var chk *linter.Checker
+				var err error
+				func() {
+					defer func() {
+						if r := recover(); r != nil {
+							err = fmt.Errorf("panic: %v", r)
+						}
+					}()
+					chk, err = linter.NewChecker(ctx, info)
+				}()
+				stage := "the constructor"
+				reg1 := fw.SnapRegistry()
+				if err != nil {
+					ctorErrs++
+				}
+				if sameStrings(reg0, reg1) && err == nil && chk != nil {
+					for _, f := range files {
+						ctx.SetPackageInfo(f.Pkg.Info, f.Pkg.Types)
+						ctx.SetFileInfo(f.Name, f.AST)
+						fw.SafeCheck(chk, f)
+					}
+					stage = "Check"
+					reg1 = fw.SnapRegistry()
+				}
+				if !sameStrings(reg0, reg1) {
+					var diff []string
+					for i := range reg0 {
+						if i < len(reg1) && reg0[i] != reg1[i] {
+							diff = append(diff, reg0[i]+"   ->   "+reg1[i])
+						}
+					}
+					meta.Fail("C05/"+info.Name+"/params-mutation", fmt.Sprintf("%s: with parameter %s=%v, %s changes the registered checker info / parameter cells", info.Name, pn, val, stage),
+						map[string]interface{}{"checker": info.Name, "param": pn, "value": val, "stage": stage, "registry_diff": diff,
+							"replay": "set info.Params[" + pn + "].Value; render linter.GetCheckersInfo(); NewChecker; Check; render again"})
+				}
+				cell.Value = def
+				// a constructor that wrote other cells: put every cell of this checker back so that later variants start clean
+				restoreFrom(reg0)
+			}
+		}
+	}
+	meta.Distribution["param_variants_tried"] = variants
+	meta.Distribution["param_variants_rejected_by_constructor"] = ctorErrs
+}
+
+var paramDefaults map[string]map[string]interface{}
+
+func sameStrings(a, b []string) bool {
+	if len(a) != len(b) {
+		return false
+	}
+	for i := range a {
+		if a[i] != b[i] {
+			return false
+		}
+	}
+	return true
+}
+
+// restoreFrom resets every parameter cell to the value recorded at the start of the run.
+func restoreFrom(_ []string) {
+	for _, info := range linter.GetCheckersInfo() {
+		for k, v := range paramDefaults[info.Name] {
+			if p, ok := info.Params[k]; ok {
+				p.Value = v
+			}
+		}
+	}
+}
+
 func Run(tier string, seed int64, outDir string) *common.Meta {
 	meta := &common.Meta{Property: "C05", Distribution: map[string]interface{}{}, CaseFiles: []string{}}
 	infos := fw.Infos()
+	paramDefaults = map[string]map[string]interface{}{}
+	for _, info := range infos {
+		paramDefaults[info.Name] = map[string]interface{}{}
+		for k, p := range info.Params {
+			paramDefaults[info.Name][k] = p.Value
+		}
+	}
 	byName := map[string]int{}
 	for i, info := range infos {
 		byName[info.Name] = i
@@ -272,6 +406,8 @@ func Run(tier string, seed int64, outDir string) *common.Meta {
 	}
 	p2 := pass(cs[2], infos, func(f *fw.File) []int { return orders[f.ID()] }, 1)
 	meta.Distribution["pass_orders_s"] = time.Since(t2).Seconds()
+
+	paramsStream(meta, cs[0], infos)
 
 	for _, p := range []*passResult{p0, p1, p2} {
 		for _, m := range p.muts {
